@@ -372,6 +372,7 @@ func ruleC12Valid(p *Prog, a *Anchors, r *Report) {
 		// macro clash: a comma-ok lookup in Template.exportedMacros whose hit edge returns a non-nil error, in the
 		// builder itself or in a helper it calls (whose error result must then stop the builder)
 		clash := false
+		own := false
 		cands := []*ssa.Function{builder}
 		for _, b := range builder.Blocks {
 			for _, in := range b.Instrs {
@@ -398,6 +399,9 @@ func ruleC12Valid(p *Prog, a *Anchors, r *Report) {
 							iff, ok := uu.(*ssa.If)
 							if !ok || !errorReturnsOnly(fn, iff.Block().Succs[0]) {
 								continue
+							}
+							if ownTableOf(fn, builder, lk.X) {
+								own = true
 							}
 							if fn == builder {
 								clash = true
@@ -430,6 +434,11 @@ func ruleC12Valid(p *Prog, a *Anchors, r *Report) {
 		}
 		if clash {
 			r.OK(name+":macro-clash", p.Pos(builder.Pos()), "a context key naming an exported macro leads to an error return")
+			if own {
+				r.OK(name+":macro-clash:own-table", p.Pos(builder.Pos()), "the macros compared are (at least) those exported by the template being executed")
+			} else {
+				r.Bad(name+":macro-clash:own-table", p.Pos(builder.Pos()), "the clash test never looks at the macros exported by the template Execute was called on (only at another template's table, e.g. the root ancestor's): a template that extends another one and exports a macro accepts a context key of that name")
+			}
 		} else {
 			r.Bad(name+":macro-clash", p.Pos(builder.Pos()), "no check that context keys do not clash with exported macros (lookup in Template.exportedMacros whose hit edge returns an error)")
 		}
@@ -819,4 +828,46 @@ func fieldStoredConditionally(p *Prog, f *ssa.Function, typ, field string) bool 
 	}
 	_ = found
 	return true // no store on every successful path: the field can stay empty
+}
+
+// ownTableOf: the map value is the field of the builder's receiver itself (in the builder, or in a helper that is
+// handed the receiver), not of a template reached from it.
+func ownTableOf(fn, builder *ssa.Function, m ssa.Value) bool {
+	base, _, _ := fieldLoadBase(m)
+	if base == nil {
+		return false
+	}
+	strip := func(v ssa.Value) ssa.Value {
+		if u, ok := v.(*ssa.UnOp); ok {
+			if sv := localLoadValue(u); sv != nil {
+				return sv
+			}
+		}
+		return v
+	}
+	base = strip(base)
+	pa, ok := base.(*ssa.Parameter)
+	if !ok || len(builder.Params) == 0 {
+		return false
+	}
+	if fn == builder {
+		return pa == builder.Params[0]
+	}
+	idx := -1
+	for i, q := range fn.Params {
+		if q == pa {
+			idx = i
+		}
+	}
+	calls := callsTo(builder, fn)
+	if idx < 0 || len(calls) == 0 {
+		return false
+	}
+	for _, hc := range calls {
+		args := callArgs(hc.Common())
+		if idx >= len(args) || strip(args[idx]) != ssa.Value(builder.Params[0]) {
+			return false
+		}
+	}
+	return true
 }
